@@ -310,6 +310,18 @@ def run_special():
     progs.append((p, "named-scope-in-body-vs-callers-scope", True))
     p = base + [("macro", "msc", [], scb), ("org", N(ORG)), ("call", "msc", []), ("data", "dw", [S("sc.sl")])]
     progs.append((p, "named-scope-in-body-invisible-to-caller", False))
+    # the argument names something the caller's BLOCK defines (a label before the call, a `=` symbol before / after it) while
+    # an outer constant has the same spelling: the block's definition is the innermost one, so it is the argument's value
+    put3 = ("macro", "put3", ["p"], [("data", "dl", [S("p")])])
+    for tag, blk in (
+            ("label-before-call", [("label", "kc"), ("data", "db", [N(1)]), ("call", "put3", [S("kc")]), ("data", "dl", [S("kc")])]),
+            ("label-before-call-in-expression", [("data", "db", [N(1)]), ("label", "kc"), ("call", "put3", [("b", "+", S("kc"), N(2))])]),
+            ("eq-before-call", [("eq", "kc", N(0x123456)), ("call", "put3", [S("kc")]), ("data", "dl", [S("kc")])]),
+            ("label-before-call-two-levels", [("label", "kc"), ("block", [("data", "db", [N(2)]), ("call", "put3", [S("kc")])])]),
+            ("label-before-call-in-named-scope", [("scope", "nsx", [("label", "kc"), ("data", "db", [N(3)]), ("call", "put3", [S("kc")])])])):
+        body = blk if tag.endswith("named-scope") else [("block", blk)]
+        p = base + [put3, ("org", N(ORG)), ("data", "db", [N(0xB0)])] + body + [("data", "db", [N(0xF0)])]
+        progs.append((p, "argument-names-a-" + tag + "-shadowing-an-outer-constant", True))
     # a macro whose name is also a label / constant name; a parameter named like the macro itself
     p = base + [("macro", "same", ["same"], [("data", "db", [S("same")])]), ("org", N(ORG)), ("label", "samelbl"), ("call", "same", [N(7)]),
                 ("call", "same", [S("samelbl")])]
